@@ -82,6 +82,8 @@ type Expect struct {
 	TagKeys     map[string]bool
 	Attached    map[string]map[string]string // tags a tagger attached to the record of the file at a path
 
+	Retagged map[string]bool // abs paths of files that pass a tagging component (which re-writes their audit file, tagged or not)
+
 	consumers map[*Lin][]*RTask          // (cache) tasks that take a file of that lineage as input
 	depCache  map[*RTask]map[*RTask]bool // (cache) see dependents
 }
@@ -438,6 +440,10 @@ func (ex *Expect) evalComponent(ni int) {
 			// (the component re-writes the audit file of every item it passes on, tagged or not)
 			ex.Tagged = true
 			ex.TagKeys[n.TagKey] = true
+			if ex.Retagged == nil {
+				ex.Retagged = map[string]bool{}
+			}
+			ex.Retagged[Abs(it.Path)] = true
 			if tagValueFor(n, it.Path) == "" {
 				out.Items = append(out.Items, it)
 				continue
